@@ -104,7 +104,7 @@ PROPS = {
                     "handlers are not executed (no SVM offline): a broken row is reported with the row as witness and no-failing-input-found"],
     },
     "C14": {
-        "lean_modules": ["WP.Props.C14"],
+        "lean_modules": ["WP.Props.C14", "WP.Props.ZeroControl"],
         "lean_support": [],
         "families": [("afm", 40000, 2000000), ("hist", 12000, 300000), ("afc", 10000, 300000), ("xinitaf", 6000, 300000)],
         "history": True,
